@@ -522,6 +522,45 @@ def check_c10(seed, tier):
         finally:
             wipe_user_cache()
             clean()
+    # the `chunks` argument (dask is optional and may be absent: a chunked open then fails, which is fine) must not leave anything
+    # behind: not in the caller's dictionaries, not in the library (module-level defaults) — every later open, with or without
+    # options of its own, still returns the tree of a fresh uncached open, encodings included
+    import ceos_alos2
+    for level in (("1.5",) if tier == "quick" else ("1.1", "1.5")):
+        cfg = {"seed": rng.randrange(10**9), "level": level, "images": [("HH", None)], "n_lines": 7, "n_pixels": 3}
+        prod = products.build(cfg)
+        path, clean = products.place(prod, "local")
+        wipe_user_cache()
+        try:
+            ref_default = fp(ceos_alos2.open_alos2(path))
+            ref_nocache = fp(_open(path, use_cache=False))
+            for chunks in ({"rows": 2}, {"rows": 3, "columns": 1}, {}, "auto", -1, {"rows": -1}, {"columns": 2}):
+                for own in (None, {"use_cache": False}, {}):
+                    evals += 1
+                    distinct.add(("chunks", level, json.dumps(chunks), json.dumps(own)))
+                    case = {"cfg": cfg, "chunks": chunks, "backend_options": own}
+                    before = copy.deepcopy(own)
+                    chunks_before = copy.deepcopy(chunks)
+                    try:
+                        if own is None:
+                            ceos_alos2.open_alos2(path, chunks=chunks)
+                        else:
+                            ceos_alos2.open_alos2(path, chunks=chunks, backend_options=own)
+                    except Exception:  # noqa: BLE001
+                        pass            # without dask most chunked opens fail: not judged
+                    if own != before or chunks != chunks_before:
+                        viol.append({"case": case, "what": f"open_alos2 mutated the caller's arguments: backend_options {before} -> {own}, chunks {chunks_before} -> {chunks}"})
+                    try:
+                        d1 = treecmp.diff(ref_default, fp(ceos_alos2.open_alos2(path)))
+                        d2 = treecmp.diff(ref_nocache, fp(_open(path, use_cache=False)))
+                        if d1 or d2:
+                            viol.append({"case": case, "what": "a plain open AFTER a chunked open differs from the same open before it: " + (d1 or d2)})
+                            ref_default = fp(ceos_alos2.open_alos2(path))   # report each cause once
+                    except Exception as e:  # noqa: BLE001
+                        viol.append({"case": case, "what": f"a plain open after a chunked open raised {type(e).__name__}: {e}"[:300], "key": common.failure_site(e)})
+        finally:
+            wipe_user_cache()
+            clean()
     # a user cache location that cannot be created or written (a regular file where a directory is expected — what a read-only
     # or over-quota home amounts to, and demonstrable as root): with `create_cache=True` the open may fail or succeed, but it
     # never touches the product directory, and every open that returns returns the tree of a fresh uncached one
